@@ -12,6 +12,21 @@ use crate::report::Report;
 use crate::transposition::{Bounds, TranspositionTable};
 use std::collections::{HashMap, VecDeque};
 
+/// `retrieve` may hand out the entry by reference or by value: both are the same interface to a user
+trait IntoEntry {
+    fn into_entry(self) -> Option<crate::transposition::Entry>;
+}
+impl IntoEntry for Option<&crate::transposition::Entry> {
+    fn into_entry(self) -> Option<crate::transposition::Entry> {
+        self.copied()
+    }
+}
+impl IntoEntry for Option<crate::transposition::Entry> {
+    fn into_entry(self) -> Option<crate::transposition::Entry> {
+        self
+    }
+}
+
 #[derive(Clone, Copy, PartialEq, Debug)]
 struct Payload {
     eval: i32,
@@ -99,7 +114,7 @@ fn run_sequence(seq: &[Op], ks: &[u64; N_KEYS + 1], pl: &[Payload; N_PAYLOADS]) 
             tt.store(ks[op.key], p.eval, p.mv, op.depth, p.bounds);
             model_apply(&mut model, *op);
             for k in 0..=N_KEYS {
-                let got = tt.retrieve(ks[k]).copied();
+                let got = tt.retrieve(ks[k]).into_entry();
                 let want = if k < N_KEYS { model[k] } else { None };
                 let same = match (got, want) {
                     (None, None) => true,
